@@ -14,6 +14,9 @@ func init() {
 }
 
 func runC01(e *Engine, r *Report) {
+	// borrowed mechanisms (session 6, round 8): the applied index a snapshot is labelled with moves with the entry, inside the state machine lock (C02/C07): a snapshot labelled k-1 that already contains entry k re-applies it
+	borrow(e, r, "C02", "MPT-setapplied")
+	borrow(e, r, "C07", "PAIR-apply-index-atomic")
 	isCall := func(f *ssa.Function) func(ssa.Instruction) bool {
 		return func(in ssa.Instruction) bool {
 			c, ok := in.(*ssa.Call)
